@@ -5,10 +5,11 @@ LEVEL = "model_checking"
 
 
 def check(run):
-    cpu_common.run_cpu(run, ["flags", "ops", "mem"],
+    cpu_common.run_cpu(run, ["flags", "ops", "edge", "seq", "mem"],
                        "the number of ExecuteMachineCycle calls between instruction boundaries is compared with SM83!Exec's cycle count and with the independent "
                        "documented table SM83!CyclesDoc: flags = every defined opcode x all 16 flag nibbles (both outcomes of every condition, exhaustive); "
                        "ops = every opcode x random full states; mem = every opcode with pointers in every memory region. "
+                       "edge = boundary operand bytes / pointer low bytes for every opcode; seq = generated programs executed back to back without resetting the CPU between instructions; "
                        "distinct_nontrivial = distinct (opcode, flags before, cycles) tuples", "C02")
 
 
